@@ -264,6 +264,44 @@ Section Proofs.
   Lemma node_parent (v : view) k hv : head_number v = k + 1 -> hash_at v k = Some hv -> n_parent (node_of_view v) = hv.
   Proof. intros Hh Hk. simpl. replace (head_number v - 1) with k by lia. rewrite Hk. reflexivity. Qed.
 
+  (* what the reorg test decides, given the assumption on the head: either no rollback and (if
+     the head is past the position) the view extends the synced chain, or a rollback to a block
+     on which both chains agree *)
+  Lemma reorg_decision (v w : view) st k h :
+    view_ok fl v -> inv st w -> hash_determines w v -> head_ok fl (mkg st w) v ->
+    st_status st = Some (k, h) ->
+    let n := num_reorged fl k h (node_of_view v) in
+    (n <= 0 -> k + 1 <= head_number v -> agree_upto w v k) /\
+    (0 < n -> 0 <= k - n < k /\ head_number v = k + 1 /\ agree_upto w v (k - n)).
+  Proof.
+    intros (Hne & Hhn & Hku & Hbound) Hinv Hdet Hok Hst n.
+    unfold inv in Hinv. unfold head_ok in Hok. simpl in Hok. rewrite Hst in Hinv, Hok.
+    destruct Hinv as (Hk & Hrows & Hh). destruct Hok as (Hag & Hhead).
+    split.
+    - intros Hn Hkv.
+      destruct Hhead as [Hhead|Hagk]; [|exact Hagk].
+      assert (Hhv : head_number v = k + 1) by lia.
+      destruct (hash_at_in_range v k ltac:(lia)) as [hv Hhvk].
+      unfold n, num_reorged in Hn. rewrite (node_parent v k hv Hhv Hhvk) in Hn.
+      rewrite node_number, Hhv, Z.eqb_refl in Hn.
+      destruct (bytes_eqb hv h) eqn:Heq; simpl in Hn.
+      + apply bytes_eqb_eq in Heq. subst hv.
+        assert (h <> []) by (eapply hash_at_nonempty; eauto).
+        destruct Hh as [Hh|Hh]; [contradiction|]. eapply hash_at_determines; eauto.
+      + destruct (k <? fl_depth fl) eqn:Hd.
+        * assert (k = 0) by lia. subst k.
+          destruct h; [exact Hag|]. apply Z.ltb_lt in Hd. replace (Z.max 0 (0 - fl_depth fl)) with 0 in Hag by lia. exact Hag.
+        * apply Z.ltb_ge in Hd. assert (fl_depth fl = 0) by lia.
+          destruct h; [exact Hag|]. replace (Z.max 0 (k - fl_depth fl)) with k in Hag by lia. exact Hag.
+    - intros Hn. destruct (num_reorged_pos k h _ Hn) as (Hnum & Hpar & Hval).
+      rewrite node_number in Hnum. fold n in Hval.
+      assert (Hk' : k - n = Z.max 0 (k - fl_depth fl) /\ k - n < k).
+      { rewrite Hval. destruct (k <? fl_depth fl) eqn:Hd; [apply Z.ltb_lt in Hd|apply Z.ltb_ge in Hd]; unfold n in *; lia. }
+      destruct Hk' as [Hk'eq Hk'lt].
+      split; [lia|]. split; [exact Hnum|].
+      destruct h; [eapply agree_upto_le; [exact Hag|lia]|]. rewrite Hk'eq. exact Hag.
+  Qed.
+
   Lemma reorg_phase_exact (v w : view) st db :
     view_ok fl v -> inv st w -> (st_status st <> None -> hash_determines w v) ->
     head_ok fl (mkg st w) v ->
